@@ -131,6 +131,15 @@ fn run<F: FMIndexable, S: SuffixArray>(fm: &F, sa: &RawSuffixArray, ssa: &S, c: 
     Ok(())
 }
 
+/// backward_search is a provided method of the `FMIndexable` trait: the same comparison for any implementor
+/// (the FMD index is one) over the same components
+pub fn check_implementor<F: FMIndexable>(fm: &F, text: &[u8], alphabet: &[u8], k: u32, patterns: &[Vec<u8>]) -> Result<(), Stop> {
+    let c = Case { text: B(text.to_vec()), alphabet: B(alphabet.to_vec()), k, sa_rate: 1, own: Own::Borrowed, patterns: patterns.iter().map(|p| B(p.clone())).collect(), resample: Vec::new() };
+    let sa = suffix_array(text);
+    let mut seen = Seen::default();
+    run(fm, &sa, &sa, &c, &mut seen)
+}
+
 pub fn check(c: &Case) -> R {
     let text: &[u8] = &c.text;
     let n = text.len();
